@@ -91,3 +91,12 @@ claim("C13",
       "motionless sensor, runs 15 recursive filter/architecture configurations on the faulted history and on the same history "
       "without dropout, abstracts each slot to (outcome, close) and TLC validates the traces (TraceDropout).",
       "TLA+ DropoutMonitor + TLC fault enumeration + trace validation of real runs", "DESIGN.md section 5, C13")
+claim("C05",
+      "ConvergenceMonitor.tla is the property's safety automaton (within Tol from the budget on, absorbing; final error not above "
+      "max(initial, Tol)), model-checked by TLC; the motionless data are exact images of each filter's own references "
+      "(SensorWorld convention table); the harness runs 17 recursive filter configurations (Madgwick, Mahony, EKF, AQUA, ROLEQ, "
+      "Complementary, FKF, UKF; IMU/MARG, NED/ENU, default and non-default gains; batch q0 route and streaming route) from "
+      "initial errors {0,30,90,150,175} degrees about several axes at exact true attitudes with seeded gyro noise, observes the "
+      "error every 50 samples and TLC validates each observation trace against the automaton (TraceConvergence) with the "
+      "per-filter budget / tolerance table.",
+      "TLA+ ConvergenceMonitor + TLC + trace validation of real convergence runs", "DESIGN.md section 5, C05")
